@@ -87,6 +87,12 @@ def collect(prop):
                     continue
                 if prop in md.get("detected_by", []) or (md.get("property") == prop and md.get("expect_detect", True)):
                     items.append(("patch", {"patch": patch, "expect": "detect", "note": "seeded/%s" % d, "file": d}))
+    vd = os.path.join(VERIF, "variants")
+    if os.path.isdir(vd):
+        # defects planted into a property-preserving redesign (twins/P-*): <props joined by +>__<name>.patch.diff, full diff against HEAD
+        for f in sorted(os.listdir(vd)):
+            if f.endswith(".patch.diff") and prop in f.split("__")[0].split("+"):
+                items.append(("patch", {"patch": os.path.join(vd, f), "expect": "detect", "note": "variants/%s" % f, "file": f}))
     td = os.path.join(VERIF, "twins")
     if os.path.isdir(td):
         for f in sorted(os.listdir(td)):
